@@ -217,13 +217,17 @@ func (c *Cache) addJarToCache(sessionID string, jar http.CookieJar) {
 
 // cachedCookieJar returns the CookieJar mapped to the sessionID
 func (c *Cache) cachedCookieJar(sessionID string) (jar http.CookieJar, err error) {
+	// The LRU cache is not safe for concurrent use (even lookups modify it), and
+	// concurrent requests for the same new session must end up sharing one jar.
+	c.mu.Lock()
+	defer c.mu.Unlock()
 	val, ok := c.cache.Get(sessionID)
 	if !ok {
 		options := cookiejar.Options{
 			PublicSuffixList: publicsuffix.List,
 		}
 		jar, err = cookiejar.New(&options)
-		c.addJarToCache(sessionID, jar)
+		c.cache.Add(sessionID, jar)
 		return jar, err
 	}
 
